@@ -112,8 +112,9 @@ class SsbGraphMinimizer:
                     ins = g.incident(v, IN)
                     if len(ins) == 1:
                         iv = g.es[ins[0]].source_vertex
-                        if isinstance(iv["op"], SsbLabel):
-                            # IS JUMP AND BEFORE IS LABEL:
+                        if isinstance(iv["op"], SsbLabel) and iv.index != 0:
+                            # IS JUMP AND BEFORE IS LABEL (but not the start of the routine, which control also enters
+                            # without an edge):
                             vs_to_delete += self._optimize_paths__jump_after_label(g, jump=v, label=iv)
             g.delete_vertices(vs_to_delete)
 
